@@ -19,6 +19,8 @@
     op close => ok | already        op closedone => ok
     op state => mts=<size:count:frozen:id+id…;…> segs=<id:cached,…|-> ctr=<n> fsig=<0|1> csig=<0|1>
     op ls => <name:cut,…|->         names h<id> v<id> t<id> m<id> L ; cut ∈ H D T F
+    op bg fcreate => inner seg=<id>  the flush worker is parked after the os.Create calls of flushMemtable
+    op imagenow <name:cut,…|-> => ok | err   the process dies now (no client call in flight); recover
     op victim                       the next op is the one the crash images are taken from
     op image <name:cut,…|-> => ok | locked | err     recover from a crash image of the victim op
 
@@ -58,6 +60,8 @@ structure St where
   pre : Option Store := none        -- model state before the victim op
   preSteps : List FsStep := []      -- FS steps of the victim op
   preD12 : List Id := []
+  preEntries : Nat := 0             -- see vecEntries
+  preDup : Bool := false            -- the templates held a duplicate vector entry before the search
   image : Bool := false             -- currently recovered from a crash image
   imgIntact : List Nat := []        -- segments intact in the current image
   imgDamaged : Bool := false        -- the current image has a partially loadable damaged segment
@@ -199,9 +203,31 @@ structure Verdict where
 def mustFind (st : St) (q : Q) : List Doc :=
   let tpl := st.cfg.tpl
   let vis := st.s.gh.sess.filter (Doc.has · tpl q)
-  let dur := st.s.gh.promised.filter fun d => Doc.has d tpl q && !st.s.gh.removed.contains d.id &&
+  let dur := st.s.gh.promised.filter fun d => Doc.has d tpl q && !st.s.gh.gone.contains d.id &&
     !(vis.any fun v => v.id == d.id)
   vis ++ dur
+
+/-- How many ENTRIES a vector source can put in front of a document: an AddWithID of a live id (an
+    update) appends a second entry for that id to the vector index (flat / ivf; the in-memory
+    hybrid index does the same), a flushed segment carries them along. The per-source top-k is taken
+    over entries, so "k large enough" for a vector probe means k ≥ this bound, not k ≥ the number of
+    distinct documents. -/
+def vecEntries (st : St) : Nat :=
+  -- `preEntries`: live entries of the templates BEFORE the search under judgement ran (the memtable
+  -- scans see that content; a load during the search may replace it)
+  let fromT := if st.s.T.v.live.length > st.preEntries then st.s.T.v.live.length else st.preEntries
+  let fromSegs := st.s.fs.foldl (fun m e => match e.2.payload with
+    | .vector stored => if stored.length > m then stored.length else m
+    | _ => m) 0
+  if fromT > fromSegs then fromT else fromSegs
+
+/-- does any vector source (templates before / after the search, any segment file) hold two entries
+    for one id? Then a per-source top-k can return fewer distinct ids than it has room for. -/
+def vecHasDup (st : St) : Bool :=
+  let dup (l : List Nat) : Bool := decide (l.eraseDups.length < l.length)
+  st.preDup || dup st.s.T.v.live || st.s.fs.any fun e => match e.2.payload with
+    | .vector stored => dup stored
+    | _ => false
 
 def classifySearch (st : St) (q : Q) (k : Nat) (model impl : List Nat) (extra : String) : String :=
   let acked := st.s.gh.acked.map (·.id)
@@ -212,7 +238,21 @@ def classifySearch (st : St) (q : Q) (k : Nat) (model impl : List Nat) (extra : 
     -- "k large enough" = k ≥ the number of documents the probe matches (what the model's stores
     -- hold, and what the property says must be found). Below that only size and membership are judged.
     let need := ((mustFind st q).map (·.id) ++ model).eraseDups.length
+    -- duplicate entries of updated ids can crowd a live document out of a vector answer with
+    -- need ≤ k < entries: which one is not determined by ids alone — judged by size and membership
+    let crowded := q == .vec && decide (need ≤ k) && decide (k < vecEntries st)
+    if crowded then
+      if decide (k < impl.length) then s!"SPECFAIL size k={k} but {impl.length} ids returned"
+      else match impl.find? (fun i => !model.contains i) with
+        | some i => s!"DIFF search k={k} returned id={i} outside the model's matches {showIds model}"
+        | none => s!"ok n={impl.length} dupcrowd=1 {extra}"
+    else
     if k < need then
+      -- with duplicate entries in a vector source fewer than k DISTINCT ids may come back
+      let dups := q == .vec && vecHasDup st
+      if dups && decide (impl.length ≤ k) && impl.all (fun i => model.contains i) then
+        s!"ok n={impl.length} ksmall=1 dupcrowd=1 {extra}"
+      else
       if impl.length != (if model.length < k then model.length else k) then
         s!"DIFF search k={k} size model-matches={model.length} impl={showIds impl}"
       else match impl.find? (fun i => !model.contains i) with
@@ -226,7 +266,7 @@ def classifySearch (st : St) (q : Q) (k : Nat) (model impl : List Nat) (extra : 
     let leaked := if st.image then impl.filter (fun i => !allowed.contains i) else []
     -- vector-only query: the answer must be the id set of an in-memory index holding the live
     -- documents — in particular nothing whose Remove returned nil
-    let revived := if q == .vec then impl.filter (fun i => st.s.gh.removed.contains i) else []
+    let revived := if q == .vec then impl.filter (fun i => st.s.gh.gone.contains i) else []
     if missing.isEmpty && leaked.isEmpty && !revived.isEmpty then
       if !agree then s!"SPECFAIL exact removed-but-returned={showIds revived} model={showIds model} impl={showIds impl}"
       else if st.s.gh.revived then s!"KNOWN D13-shared-templates removed-but-returned={showIds revived} {extra}"
@@ -333,8 +373,17 @@ def op (st : St) (toks : List String) : St × String :=
   | ["add", id, vd, tl, mc] =>
     match id.toNat?, vd.toNat?, tl.toNat?, mc.toNat? with
     | some id, some vd, some tl, some mc =>
-      if (st.s.gh.acked.any fun d => d.id == id) then (st, "UNSUPPORTED readd") else
-      simple st (.add ⟨id, vd, tl, mc⟩) post "add"
+      -- an id may be added again (after a Remove, or while still live: an update) as long as the
+      -- new document carries the same modalities as every earlier one under that id — a re-add
+      -- that drops a modality leaves the old entry of that sub-index behind (C06's subject)
+      let sameMods := st.s.gh.acked.all fun d => d.id != id ||
+        (decide (0 < d.vdim) == decide (0 < vd) && decide (0 < d.tlen) == decide (0 < tl) &&
+         decide (0 < d.mcnt) == decide (0 < mc))
+      if !sameMods then (st, "UNSUPPORTED readd-with-other-modalities") else
+      let re := st.s.gh.acked.any fun d => d.id == id
+      let wasGone := st.s.gh.gone.contains id
+      let (st', r) := simple st (.add ⟨id, vd, tl, mc⟩) post "add"
+      (st', if re && r.startsWith "ok" then r ++ s!" readd=1 aftergone={if wasGone then 1 else 0}" else r)
     | _, _, _, _ => (st, "BADOP add")
   | ["badadd", vd, tl, mc] =>
     -- an Add / AddWithID the store must reject: memtableQueue makes room first (a rotation can
@@ -383,6 +432,35 @@ def op (st : St) (toks : List String) : St × String :=
     if running st.s then ({ st' with d12 := st'.d12 ++ mutIds }, r) else (st', r)
   | ["closedone"] =>
     simple st .closeDone post "closedone"
+  | ["bg", "fcreate"] =>
+    -- the flush worker ran the first half of flushMemtable (id, os.Create ×n) and is parked there
+    match st.s.fw with
+    | .todo _ (m :: _) =>
+      let (s', id) := beginWrite st.s m.info
+      let before := st.s
+      let st' := { st with s := s' }
+      if post.head? != some "inner" then (st', s!"DIFF bg fcreate model=inner impl={post}") else
+      if kvOf "seg" post != some (toString id) then (st', s!"DIFF bg fcreate segment id model={id} impl={post}") else
+      match freshCheck before id with
+      | some e => (st', e)
+      | none => (st', "ok fcreate=1")
+    | _ => (st, s!"DIFF bg fcreate not enabled in the model (model worker: {fwWhere st.s.fw}) impl={post}")
+  | ["imagenow", listing] =>
+    -- the process dies NOW, between two client calls (the last one completed), possibly with a
+    -- worker parked inside a write: the directory is exactly the model's; recover from it
+    let (s', o) := recover st.cfg st.s.fs st.s.gh
+    let intact := (listSegments s'.fs).filter fun g => (loadSeg st.cfg.tpl s'.fs g Shared.empty).1
+    let damaged := (listSegments s'.fs).any fun g => partialLoadable st.cfg.tpl s'.fs g
+    if showFS st.s.fs != listing then
+      -- the directory is not what the model says: the trace cannot be replayed from here; what the
+      -- property promises (documents acknowledged before a completed Flush) is still judged on the
+      -- implementation's answers (specOnly): no store instance, no session documents any more
+      ({ st with s := { st.s with gh := { st.s.gh with sess := [] } }, image := true },
+        s!"DIFF imagenow model=[{showFS st.s.fs}] impl=[{listing}]")
+    else
+      let st' := { st with s := s', image := true, imgIntact := intact, imgDamaged := damaged }
+      if outAgrees post o then (st', s!"ok imagenow=1 intact={intact.length} files={st.s.fs.length}")
+      else (st', s!"SPECFAIL reopen-after-crash impl={post} model={outName o}")
   | ["bg", name] =>
     match bgOfName name with
     | none => (st, "BADOP bg")
@@ -421,7 +499,11 @@ def op (st : St) (toks : List String) : St × String :=
         | some implIds =>
           let impl := sortIds implIds
           if tl.length != st.s.segs.length then
-            (st, (specOnly st q k impl).getD s!"DIFF search turns={tl.length} model-segments={st.s.segs.length}") else
+            -- the implementation ran a different number of segment goroutines than there are registered
+            -- segments: the model keeps ITS semantics (one goroutine per segment, in list order), so that
+            -- what the deviation costs later shows up against the code's real behaviour
+            let (sOwn, _, _) := execSearch st.s q (serialSched (st.s.segs.map (·.id)))
+            ({ st with s := sOwn }, (specOnly st q k impl).getD s!"DIFF search turns={tl.length} model-segments={st.s.segs.length}") else
           match resolveTurns st.cfg st.s tl with
           | .error e => (st, (specOnly st q k impl).getD s!"DIFF search schedule: {e}")
           | .ok sched =>
@@ -432,7 +514,10 @@ def op (st : St) (toks : List String) : St × String :=
               let st' := { st with s := s' }
               if toString nl != loads then (st', s!"DIFF search loads model={nl} impl={loads}") else
               let nmust := (mustFind st q).length
-              let r := classifySearch { st with s := s' } q k model impl
+              let preLive := st.s.T.v.live
+              let stJ : St := { st with s := s', preEntries := preLive.length,
+                                        preDup := decide (preLive.eraseDups.length < preLive.length) }
+              let r := classifySearch stJ q k model impl
                 s!"must={nmust} segs={tl.length} loads={nl} nonempty={if impl.isEmpty then 0 else 1} kexact={if k == model.length && model.length > 0 then 1 else 0}"
               (st', r)
             | e => (st, s!"DIFF search model={outName e} impl=ok")
@@ -464,7 +549,8 @@ def op (st : St) (toks : List String) : St × String :=
           | some i => (st, s!"SPECFAIL phantom id={i} impl={showIds impl}")
           | none =>
           if tl.length != st.s.segs.length then
-            (st, s!"DIFF osearch turns={tl.length} model-segments={st.s.segs.length}") else
+            let (sOwn, _, _) := execSearch st.s .vec (serialSched (st.s.segs.map (·.id)))
+            ({ st with s := sOwn }, (specOnly st .vec k impl).getD s!"DIFF osearch turns={tl.length} model-segments={st.s.segs.length}") else
           match resolveTurns st.cfg st.s tl with
           | .error e => (st, s!"DIFF osearch schedule: {e}")
           | .ok sched =>
@@ -478,7 +564,7 @@ def op (st : St) (toks : List String) : St × String :=
             | some i => (st', s!"DIFF osearch returned id={i} outside the model's matches vec={showIds mv} txt={showIds mt}")
             | none =>
               -- the documents a single in-memory index holding the live documents has
-              let live := st'.s.gh.acked.filter fun d => !st'.s.gh.removed.contains d.id
+              let live := st'.s.gh.acked.filter fun d => !st'.s.gh.gone.contains d.id
               let lv := sortIds ((live.filter (Doc.has · st.cfg.tpl .vec)).map (·.id))
               let lt := sortIds ((live.filter (Doc.has · st.cfg.tpl .txt)).map (·.id))
               -- equality is promised when the vector index is exact, the store (per the faithful
@@ -492,8 +578,14 @@ def op (st : St) (toks : List String) : St × String :=
               -- (min fusion, tied BM25 scores; reproduced 162 : 38 over 200 fresh instances). The set is
               -- determined only when k cannot truncate any modality's list; below that the reference is
               -- one of several valid answers and equality with it is more than the property states.
-              let vtDetermined := !isVT || decide (((mv ++ mt).eraseDups).length ≤ k)
-              let promised := exactix == "1" && same && (commute == "1" || nl == 0) && vtDetermined
+              let ent := vecEntries { st' with preEntries := st.s.T.v.live.length }
+              let vtDetermined := (!isVT || decide (((mv ++ mt).eraseDups).length ≤ k)) &&
+                decide (ent ≤ k || ent == lv.length)
+              -- after an UPDATE (an id added again with new content) a segment load can put the older
+              -- content back under the same id (D13 at the level of contents): the id-level model
+              -- cannot tell, so equality with the reference is only demanded on histories without re-adds
+              let promised := exactix == "1" && same && (commute == "1" || nl == 0) && vtDetermined &&
+                !st'.s.gh.readded
               if promised then
                 if impl == ref then (st', s!"ok refeq=1 n={impl.length} vt={if isVT then 1 else 0} segs={tl.length} loads={nl}")
                 else (st', s!"SPECFAIL refeq store={showIds impl} reference={showIds ref} (same live documents, options {args})")
